@@ -101,6 +101,10 @@ func translation(prop, lang string, s State) ([]string, bool) {
 		same, diff = []string{"w" + lang}, []string{"w" + lang, "zz"}
 	case "name":
 		same, diff = []string{"N-" + lang}, []string{"N-" + lang, "N-" + lang + "-2"}
+	case "subject", "body", "category":
+		same, diff = []string{prop + "-" + lang}, []string{prop + "-" + lang, prop + "-" + lang + "-2"}
+	case "audio_url":
+		same, diff = []string{"http://x.io/" + lang + ".mp3"}, []string{"http://x.io/" + lang + ".mp3", "http://x.io/" + lang + "-2.mp3"}
 	default:
 		panic("unknown property " + prop)
 	}
@@ -137,6 +141,10 @@ func (c *Config) base(prop string) []string {
 		return []string{"wbase"}
 	case "name":
 		return []string{"N-base"}
+	case "subject", "body", "category":
+		return []string{prop + "-base"}
+	case "audio_url":
+		return []string{"http://x.io/base.mp3"}
 	}
 	panic("unknown property " + prop)
 }
@@ -243,6 +251,16 @@ func (c *Config) Definition() J {
 		typ = "voice"
 		node["actions"] = []any{J{"uuid": actionUUID, "type": "say_msg", "text": c.base("text")[0]}}
 		items["text"] = actionUUID
+	case "play_audio":
+		typ = "voice"
+		node["actions"] = []any{J{"uuid": actionUUID, "type": "play_audio", "audio_url": c.base("audio_url")[0]}}
+		items["audio_url"] = actionUUID
+	case "send_email":
+		node["actions"] = []any{J{"uuid": actionUUID, "type": "send_email", "addresses": []any{"bob@nyaruka.com"}, "subject": c.base("subject")[0], "body": c.base("body")[0]}}
+		items["subject"], items["body"] = actionUUID, actionUUID
+	case "set_run_result":
+		node["actions"] = []any{J{"uuid": actionUUID, "type": "set_run_result", "name": "Res", "value": "v", "category": c.base("category")[0]}}
+		items["category"] = actionUUID
 	case "router":
 		node["actions"] = []any{}
 		node["exits"] = []any{J{"uuid": world.UUID("c18-e0")}, J{"uuid": world.UUID("c18-e1")}}
@@ -309,6 +327,13 @@ type Observed struct {
 	ResCat     string         `json:"res_category,omitempty"`
 	ResCatLoc  string         `json:"res_category_localized,omitempty"`
 	Errors     []string       `json:"error_events,omitempty"`
+	Emails     []Email        `json:"emails,omitempty"`
+}
+
+// Email is an email_sent event as observed.
+type Email struct {
+	Subject string `json:"subject"`
+	Body    string `json:"body"`
 }
 
 func msgOf(m *flows.MsgOut) Msg {
@@ -337,7 +362,7 @@ func (c *Config) Execute(sa flows.SessionAssets) *Observed {
 	}
 	trig := lab.Trigger{Kind: "manual", Flow: flowUUID, Contact: contact, Env: env}
 	switch c.Action {
-	case "say_msg":
+	case "say_msg", "play_audio":
 		trig.Kind = "voice"
 	case "router":
 		trig.Kind, trig.MsgText = "msg", routerInput
@@ -368,6 +393,8 @@ func (c *Config) Execute(sa flows.SessionAssets) *Observed {
 				m.QuickReplies = append(m.QuickReplies, t.QuickReplies...)
 				o.Broadcast[string(l)] = m
 			}
+		case *events.EmailSentEvent:
+			o.Emails = append(o.Emails, Email{Subject: ev.Subject, Body: ev.Body})
 		case *events.ErrorEvent:
 			o.Errors = append(o.Errors, ev.Text)
 		}
@@ -548,6 +575,56 @@ func Judge(c *Config, o *Observed) (problems []Problem, notes []string) {
 				Key:  "say_msg:locale:want=language-of-text:got=" + map[bool]string{true: "no-locale", false: "another-language"}[got == ""],
 				What: fmt.Sprintf("locale %q: the text was taken from language %s", m.Locale, dT.Lang),
 			})
+		}
+
+	case "play_audio":
+		dU := decide("audio_url", "audio_url")
+		if len(o.Msgs) != 1 {
+			problems = append(problems, Problem{"play_audio:messages:" + fmt.Sprint(len(o.Msgs)), fmt.Sprintf("want exactly one ivr_created, have %d", len(o.Msgs))})
+			return
+		}
+		m := o.Msgs[0]
+		if !equal(m.Attachments, []string{"audio:" + dU.Val[0]}) {
+			got := []string{}
+			for _, a := range m.Attachments {
+				got = append(got, strings.TrimPrefix(a, "audio:"))
+			}
+			bad("audio_url", dU, got, true, "played audio")
+			return
+		}
+		// a text-less message: the locale names the language of its attachment
+		if got := localeLang(m.Locale); got != dU.Lang {
+			problems = append(problems, Problem{
+				Key:  "play_audio:locale:want=language-of-attachments:got=" + map[bool]string{true: "no-locale", false: "another-language"}[got == ""],
+				What: fmt.Sprintf("locale %q: the audio was taken from language %s", m.Locale, dU.Lang),
+			})
+		}
+
+	case "send_email":
+		dS, dB := decide("subject", "subject"), decide("body", "body")
+		if len(o.Emails) != 1 {
+			problems = append(problems, Problem{"send_email:emails:" + fmt.Sprint(len(o.Emails)), fmt.Sprintf("want exactly one email_sent, have %d", len(o.Emails))})
+			return
+		}
+		if o.Emails[0].Subject != dS.Val[0] {
+			bad("subject", dS, []string{o.Emails[0].Subject}, true, "email subject")
+		}
+		if o.Emails[0].Body != dB.Val[0] {
+			bad("body", dB, []string{o.Emails[0].Body}, true, "email body")
+		}
+
+	case "set_run_result":
+		dC := decide("category", "category")
+		if !o.HasResult || o.ResCat != c.base("category")[0] {
+			problems = append(problems, Problem{"set_run_result:result:missing", "the action saved no result with the base category"})
+			return
+		}
+		eff := o.ResCatLoc
+		if eff == "" {
+			eff = o.ResCat
+		}
+		if eff != dC.Val[0] {
+			bad("category", dC, []string{eff}, true, "localized category of the result")
 		}
 
 	case "router":
